@@ -61,7 +61,7 @@ def _dec(t, s):
                 if k == '$t':
                     return tuple(_dec(x, s) for x in v)
                 if k == '$re':
-                    return re.compile(v)
+                    return re.compile(v[0], v[1]) if isinstance(v, list) else re.compile(v)      # [pattern, flags] or pattern
                 if k == '$np':
                     dtype, x = v
                     x = _dec(x, s)
@@ -147,7 +147,7 @@ def _enc(x, ids):
     if isinstance(x, list):
         return [_enc(v, ids) for v in x]
     if isinstance(x, re.Pattern):
-        return {'$re': x.pattern}
+        return {'$re': x.pattern} if x.flags in (0, re.UNICODE) else {'$re': [x.pattern, int(x.flags)]}
     if isinstance(x, np.ndarray):
         return {'$arr': [str(x.dtype), _enc(x.tolist(), ids)]}
     if isinstance(x, pd.Series):
